@@ -86,9 +86,9 @@ def docs(seed, n, bad=0.05, nmax=14, corpus_first=True):
     rng = random.Random(seed)
     out = []
     c = corpus()
-    if corpus_first:
-        out.extend(c)
-    while len(out) < n + (len(c) if corpus_first else 0):
+    fixed = (c + tab_opener_templates()) if corpus_first else []
+    out.extend(fixed)
+    while len(out) < n + len(fixed):
         r = rng.random()
         if r < 0.35:
             out.append(soup(rng, nmax=nmax, bad=bad if rng.random() < 0.3 else 0.0))
@@ -314,6 +314,15 @@ def structured(rng):
         i = rng.randrange(len(doc) + 1)
         doc = doc[:i] + rng.choice([b"\x00", b"\xff", b"\xe2\x82", b"\t"]) + doc[i:]
     return doc
+
+
+def tab_opener_templates():
+    """container prefix ending in a partially consumed tab x block opener (exhaustive product, about 400 documents): where a column
+    count and a byte count differ for the block starts"""
+    prefixes = [b">\t", b"> \t", b">  \t", b">\t ", b"- a\n\n \t", b"- a\n\n  \t", b"1. a\n\n  \t", b"1. a\n\n   \t", b"-\t", b"- \t", b"1.\t", b">>\t", b"> -\t"]
+    openers = [b"- ", b"+ ", b"* ", b"-", b"1. ", b"9) ", b"12. ", b"1.", b"# ", b"## h #", b"> ", b">", b"```", b"~~~ x", b"---", b"* * *", b"<div>", b"[a]: /u", b"a\n===", b"    c"]
+    rests = [b"foo\n", b"\n"]
+    return [p + o + r for p in prefixes for o in openers for r in rests]
 
 
 def tab_nul_templates():
